@@ -402,4 +402,35 @@ def run(ctx):
         del OPENED[:]
 
     drive.for_each_case(ctx, 'custom', 25, body_custom, gen=lambda c, r: Ty('int'), seconds=60)
+
+    # ---- string variants of the dataclass methods over the whole formatting grid, with strings whose edges matter -----------
+    def body_strings(i, rng, ty, T):
+        import itertools
+        cls = type(f"KS{counter[0]}_{i}", (env.PaneBase,), {'__annotations__': {'name': str, 'text': str}, '__module__': __name__})
+        edge = ('ends with newline\n', 'two\n\n', ' lead', 'trail ', '\nstarts', 'tab\t', 'plain', '', ' ', '\n', 'multi\nline\n', 'x\n ')
+        for a, b in ((rng.choice(edge), rng.choice(edge)) for _ in range(6)):
+            x = cls(a, b)
+            d = {'name': a, 'text': b}
+            for style, flow, end, start in itertools.product((None, '"', '|', '>'), (None, True, False), (False, True), (True, False)):
+                opts = {'default_style': style, 'default_flow_style': flow, 'explicit_end': end, 'explicit_start': start}
+                if not lib_roundtrips('yaml', d, opts):
+                    ctx.count('not_yaml_representable')
+                    continue
+                w = observe(x.write_yaml, **opts)
+                ctx.count('string_variant_round_trips')
+                ctx.case(('yaml-strings', str(style), str(flow), end, start))
+                r = observe(cls.from_yamls, w.val) if w.kind == 'value' else w
+                if w.kind != 'value' or r.kind != 'value' or not deep_typed_eq(x, r.val)[0]:
+                    ctx.violation('round-trip', 'strings', i, {'format': 'yaml', 'options': opts, 'value': short(x), 'text': short(w.val if w.kind == 'value' else w.brief(), 200),
+                                                               'read_back': r.brief()}, mech='yaml-string-method-round-trip')
+                    return
+            for indent in (None, 0, 2):
+                w = observe(x.write_json, indent=indent)
+                r = observe(cls.from_jsons, w.val) if w.kind == 'value' else w
+                ctx.count('string_variant_round_trips')
+                if w.kind != 'value' or r.kind != 'value' or not deep_typed_eq(x, r.val)[0]:
+                    ctx.violation('round-trip', 'strings', i, {'format': 'json', 'indent': indent, 'value': short(x), 'read_back': r.brief()}, mech='json-string-method-round-trip')
+                    return
+
+    drive.for_each_case(ctx, 'strings', 6, body_strings, gen=lambda c, r: Ty('int'), seconds=120)
     tmp.cleanup()
